@@ -43,6 +43,8 @@ def make_trans(spec):
         kw = dict(zip(SD7, spec["sd"]))
         if spec.get("sdr") is not None:
             kw.update(dict(zip(SDR7, spec["sdr"])))
+        if spec.get("pnum") == "np64":
+            kw = {k: np.float64(v) for k, v in kw.items()}       # uncertainties taken from an array (np.sqrt(np.diag(cov)))
         sd = c.TransformationSD(**kw)
     ep = spec.get("epoch")
     ref = datetime.date(*ep) if ep else 0
